@@ -1034,7 +1034,6 @@ func slotFromHelper(v ssa.Value, buffers *types.Var) []*ssa.IndexAddr {
 	return out
 }
 
-
 // constOnRight: the comparison with its constant operand on the right (16 <= size is size >= 16).
 func constOnRight(b *ssa.BinOp) (ssa.Value, token.Token, ssa.Value) {
 	if _, lc := constInt(b.X); lc {
